@@ -17,11 +17,11 @@ def thousand : α := ((1000:Nat) : α)
 
 /-- `Fiber.to_json` then `FiberParams(...)`: length is written in km rounded to 6 digits, the loss coefficient in
 dB/km rounded to 6 digits; `att_in`, `con_in`, `con_out` are written as they are; the attributes design attached
-(`design_span_loss`, `estimated_gain`) are not part of the document. -/
+(`design_span_loss`, `estimated_gain`) and the lumped losses are not part of the document. -/
 def exportFiber (p : FiberP α) : FiberP α :=
   { p with length := round6 (p.length / thousand) * thousand,
            lossCoef := round6 (p.lossCoef * thousand) / thousand,
-           ramanGain := none, dsl := none }
+           ramanGain := none, dsl := none, lumps := [] }
 
 /-- `Edfa.to_json` then `EdfaOperational(...)`: the designed operating point becomes the user setting of the next
 design: `gain_target = round(effective_gain, 6)`, `delta_p` (None in gain mode), `out_voa`, `in_voa`, and the
